@@ -30,10 +30,12 @@ type c15Case struct {
 	Client   string          `json:"client"`   // word over S Q R P (bidi); fixed programs for the other kinds
 	Deadline bool            `json:"deadline"` // expiry instead of cancel()
 	// Cause: the context is cancelled / expires with a caller-supplied cause (context.WithCancelCause, WithTimeoutCause); ctx.Err() is still Canceled / DeadlineExceeded.
-	Cause  bool  `json:"cause,omitempty"`
-	HRecv  int   `json:"hrecv"`
-	HSend  int   `json:"hsend"`
-	Bound  int   `json:"bound"`
+	Cause bool `json:"cause,omitempty"`
+	HRecv int  `json:"hrecv"`
+	HSend int  `json:"hsend"`
+	Bound int  `json:"bound"`
+	// RR: explore around the round-robin default scheduler instead of run-to-block.
+	RR     bool  `json:"rr,omitempty"`
 	Prefix []int `json:"prefix,omitempty"`
 }
 
@@ -44,6 +46,9 @@ func (k c15Case) key() string {
 	}
 	if k.Cause {
 		x += "+cause"
+	}
+	if k.RR {
+		x += "+rr"
 	}
 	return fmt.Sprintf("%s/%s/%s/%s/%s/r%ds%d/d%d", k.Proto, k.Kind, k.ReqMode, k.Client, x, k.HRecv, k.HSend, k.Bound)
 }
@@ -348,6 +353,9 @@ func c15Cases(thorough bool) []c15Case {
 					for _, hs := range []int{0, 1} {
 						for _, w := range words {
 							out = append(out, c15Case{Proto: p, Kind: KBidi, ReqMode: m, Client: w, Deadline: dl, HRecv: hr, HSend: hs, Bound: bound})
+							if m == memhttp.ReqEager && hs == 1 && (len(w) <= 2 || thorough) {
+								out = append(out, c15Case{Proto: p, Kind: KBidi, ReqMode: m, Client: w, Deadline: dl, HRecv: hr, HSend: hs, Bound: bound, RR: true})
+							}
 							if m == memhttp.ReqEager && hr == 0 && (len(w) <= 2 || thorough) {
 								out = append(out, c15Case{Proto: p, Kind: KBidi, ReqMode: m, Client: w, Deadline: dl, Cause: true, HRecv: hr, HSend: hs, Bound: bound})
 							}
@@ -366,6 +374,8 @@ func c15Cases(thorough bool) []c15Case {
 }
 
 func c15Explore(t *testing.T, c *ev.Collector, k c15Case) {
+	schedRoundRobin = k.RR
+	defer func() { schedRoundRobin = false }()
 	c.Case(k.key(), true)
 	outcomes := map[string]bool{}
 	e := &bsched.Explorer{
@@ -484,6 +494,7 @@ func TestC15(t *testing.T) {
 			c15Sequential(t, c)
 			return
 		}
+		schedRoundRobin = k.RR
 		x := runSched(t, k.Prefix, nil, 3000, func(s *bsched.Sched) any { return c15Body(k, s) })
 		fmt.Println("replay:", c15Judge(c, k, x), schedLine(x))
 		return
